@@ -207,7 +207,7 @@ fn main() {
 fn git_faults(ctx: &Ctx, quick: bool) -> Stats {
     let root = gitx::scratch_root();
     let _ = std::fs::create_dir_all(&root);
-    let shim_dir = PathBuf::from("/verif/build/shimbin");
+    let shim_dir = PathBuf::from(format!("{}/build/shimbin", verif_root()));
     if !shim_dir.join("git").exists() { machinery_error("git shim missing: run make -C shims"); }
     let real_git = which_git();
     let linear = Shape { parents: vec![vec![], vec![0], vec![1]], branches: [("main".to_string(), 2)].into_iter().collect(), cur: "main".into(), ops: vec![] };
